@@ -44,6 +44,13 @@ Qed.
 Lemma no_underflow d s n : WF d s -> n < Nat.min (idx s + 1) d -> usub (idx s) n = Ok (idx s - n).
 Proof. intros _ H. unfold usub. destruct (Nat.leb_spec n (idx s)); [reflexivity|lia]. Qed.
 
+Lemma no_underflow_md d s n md : WF d s -> max_depth N M s = Ok md -> n < md ->
+  n <= idx s /\ usub (idx s) n = Ok (idx s - n).
+Proof.
+  intros W E H. rewrite (max_depth_wf d s W) in E. injection E as <-.
+  split; [lia|]. apply (no_underflow d s n W H).
+Qed.
+
 (* Fixed's Index wraps: every index reads a stored frame *)
 Lemma fget_wf d s i : WF d s ->
   exists w fr, fwrapped (frames s) i = Ok w /\ w < flen (frames s) /\
@@ -106,6 +113,14 @@ Proof.
   intros W. unfold Sinc.interpolate. rewrite (max_depth_wf d s W). simpl.
   apply (fold_range_cls d s x _ W); [lia|apply equil_frame_length].
 Qed.
+
+Theorem interpolate_safe d s x : WF d s ->
+  match interpolate s x with
+  | Ok fr => length fr = ch
+  | Panic k => exists v p, add_amp_f M v p = Panic k
+  | UB => exists v p, add_amp_f M v p = UB
+  end.
+Proof. intros W. pose proof (interpolate_cls d s x W) as C. destruct (interpolate s x); exact C. Qed.
 
 Theorem interpolate_ok d s x : WF d s -> (forall v p, exists r, add_amp_f M v p = Ok r) ->
   exists fr, interpolate s x = Ok fr /\ length fr = ch.
